@@ -592,3 +592,31 @@ Proof.
   - apply in_or_app. right. now left.
   - intros Hn. apply find_record_first; [reflexivity|]. now rewrite expected_index_names.
 Qed.
+
+Lemma written_record_query_exact : forall w pre rec post,
+  (1 <= w)%nat ->
+  Forall (rec_ok w) (pre ++ rec :: post) -> Forall has_bases (pre ++ rec :: post) ->
+  let f := write_file w (pre ++ rec :: post) in
+  let r := fai_of w rec (len (write_file w pre)) in
+  In r (fst (index_file f)) /\
+  (~ In (r_name rec) (map r_name pre) -> find_record (fst (index_file f)) (r_name rec) = Some r) /\
+  forall chk s e,
+    let B := r_seq rec in
+    let st := match s with Some p => p | None => 1 end in
+    let en := match e with Some p => p | None => usize_max end in
+    nth (N.to_nat (st - 1)) B 0 <> CR -> nth (N.to_nat (st - 1)) B 0 <> GT ->
+    1 <= st -> st <= len B -> st <= en ->
+    query_record chk f r s e = QOk (firstn (N.to_nat (en - st + 1)) (skipn (N.to_nat (st - 1)) B)).
+Proof.
+  intros w pre rec post Hw Hok Hb f r.
+  destruct (written_record_indexed w pre rec post Hw Hok Hb) as [H1 H2].
+  split; [exact H1|]. split; [exact H2|].
+  intros chk s e. exact (written_query_exact w pre rec post chk s e Hw Hok Hb).
+Qed.
+
+Lemma fai_of_geometry : forall w rec off,
+  let r := fai_of w rec off in
+  f_name r = r_name rec /\ f_len r = len (r_seq rec) /\
+  f_pos r = off + len (write_definition (r_name rec) (r_desc rec)) + 1 /\
+  f_lb r = N.min (N.of_nat w) (len (r_seq rec)) /\ f_lw r = f_lb r + 1.
+Proof. intros w rec off. cbn. repeat split. Qed.
